@@ -254,7 +254,92 @@ func overlapCause(ps ...*canvas.Path) string {
 	if repeatedSeg {
 		return "+repeated-segments"
 	}
+	if subGridVertices(ps...) {
+		return "+sub-grid-vertices"
+	}
+	if overlappingLines(ps...) {
+		return "+overlapping-edges"
+	}
 	return ""
+}
+
+// subGridVertices: two distinct record end points of the operands are closer than 2.5 cells of the
+// sweep's snap grid (BentleyOttmannEpsilon = 1e-8), the "sub-grid" class of the C01 residue analysis.
+func subGridVertices(ps ...*canvas.Path) bool {
+	var pts []hc.P2
+	for _, p := range ps {
+		if p == nil {
+			continue
+		}
+		if ss, err := hc.Decode(p.Data()); err == nil {
+			for _, sg := range ss {
+				pts = append(pts, sg.End)
+			}
+		}
+	}
+	if len(pts) > 600 {
+		pts = pts[:600]
+	}
+	for i := range pts {
+		for j := i + 1; j < len(pts); j++ {
+			if pts[i] != pts[j] && math.Abs(pts[i].X-pts[j].X) < 2.5e-8 && math.Abs(pts[i].Y-pts[j].Y) < 2.5e-8 {
+				return true
+			}
+		}
+	}
+	return false
+}
+
+// overlappingLines: two straight records (LineTo or a Close of positive length) of the operands are
+// collinear — exactly, or within 4e-8 at both ends of the common part — over a length of more than 1e-6:
+// the "coincident edges" on which the sweep's residual failures occur (C01 residue analysis, cause 8).
+func overlappingLines(ps ...*canvas.Path) bool {
+	type edge struct{ a, b hc.P2 }
+	var es []edge
+	for _, p := range ps {
+		if p == nil {
+			continue
+		}
+		ss, err := hc.Decode(p.Data())
+		if err != nil {
+			continue
+		}
+		for _, sg := range ss {
+			if (sg.Kind == 'L' || sg.Kind == 'Z') && sg.P0 != sg.End {
+				es = append(es, edge{sg.P0, sg.End})
+			}
+		}
+	}
+	if len(es) > 400 {
+		es = es[:400]
+	}
+	for i, e := range es {
+		d := e.b.Sub(e.a)
+		l := d.Len()
+		if l == 0 {
+			continue
+		}
+		u := d.Mul(1 / l)
+		for j, f := range es {
+			if i == j {
+				continue
+			}
+			ta, tb := f.a.Sub(e.a).Dot(u), f.b.Sub(e.a).Dot(u)
+			sa, sb := u.Cross(f.a.Sub(e.a)), u.Cross(f.b.Sub(e.a))
+			if ta > tb {
+				ta, tb, sa, sb = tb, ta, sb, sa
+			}
+			lo, hi := math.Max(ta, 0), math.Min(tb, l)
+			if hi-lo <= 1e-6 || tb <= ta {
+				continue
+			}
+			at := func(t float64) float64 { return sa + (sb-sa)*(t-ta)/(tb-ta) }
+			if math.Abs(at(lo)) < 4e-8 && math.Abs(at(hi)) < 4e-8 {
+				return true
+			}
+		}
+	}
+	return false
 }
 
 func cloneF(a []float64) []float64 { return append([]float64(nil), a...) }
@@ -378,6 +463,16 @@ func total(c *hc.Ctx, pool []*canvas.Path) {
 				switch cl.name {
 				case "Windings", "Contains", "Crossings", "RayIntersections":
 					cls = rayClass(p, x.pt)
+				}
+				switch cl.name {
+				case "Settle", "Offset", "Stroke":
+					if strings.Contains(msg, "buggy intersection code") {
+						cls += overlapCause(p)
+					}
+				case "And", "Or", "Xor", "Not", "DivideBy":
+					if strings.Contains(msg, "buggy intersection code") {
+						cls += overlapCause(p, q)
+					}
 				}
 				fail(c, "panic:"+cl.name+":"+cls, cl.name+" panicked: "+msg, replay)
 				continue
